@@ -35,6 +35,9 @@ EXPLANATION = ('PARTIAL. Statement level (added): c36_stmt_exact / c36_body_exac
                'returns CPython\'s value; the emitted CFG is represented unfolded along forward edges (Model/StmtCode.v) and '
                'executed with IRSem arithmetic but NOT with IRSem.run_function on numbered blocks/byte memory; the model CFG is '
                'compared structurally with the decompiled python_to_ir output on generated functions every run. '
+               'Tuple assignment x1, ..., xn = e1, ..., en (simultaneous: all values in the old store, targets bound left to right) is in '
+               'the statement spec, the lowering model (values as SSA registers, then stores) and c36_stmt_exact; its CFG is not part '
+               'of the structural decompile comparison (differential execution: swaps, rotations, fib updates, repeated targets). '
                'Augmented assignment is covered for every operator the lowering accepts (x op= e is lowered as x op e); while-else / '
                'for-else are rejected by the front-end with a diagnostic and are not in the statement AST; function calls are NOT in '
                'the statement theorem (differential execution only). True division a / b on ints is part of the expression language '
@@ -687,6 +690,23 @@ class FGen:
             out += self.block(depth - 1, True, ind + 4)
             self.loopvars.pop()
             return out
+        if r < 0.12:
+            # tuple assignment: all right-hand values are evaluated in the old store, then stored left to right
+            self.features.add('tuple-assign')
+            k = self.rng.random()
+            vs = list(LOCALS)
+            self.rng.shuffle(vs)
+            if k < 0.25:
+                return [p + '%s, %s = %s, %s' % (vs[0], vs[1], vs[1], vs[0])]
+            if k < 0.45:
+                return [p + '%s, %s, %s = %s, %s, %s' % (vs[0], vs[1], vs[2], vs[1], vs[2], vs[0])]
+            if k < 0.7:
+                return [p + '%s, %s = %s, (%s + %s)' % (vs[0], vs[1], vs[1], vs[0], vs[1])]
+            if k < 0.8:
+                return [p + '%s, %s = %s, %s' % (vs[0], vs[0], self.expr(1), self.expr(1))]
+            n = self.rng.choice([2, 3])
+            tg = [self.rng.choice(LOCALS) for _ in range(n)]
+            return [p + '%s = %s' % (', '.join(tg), ', '.join(self.expr(1) for _ in range(n)))]
         if self.forvars and r < 0.5:
             # CPython: rebinding the loop variable does not change the iteration sequence
             self.features.add('loopvar-assign')
@@ -752,6 +772,8 @@ def classify(src, feats, err):
         return 'value-floordiv'
     if 'loopvar-after' in feats:
         return 'value-loopvar-after'
+    if 'tuple-assign' in feats:
+        return 'value-tuple-assign'
     if 'loopvar-assign' in feats:
         return 'value-loopvar-assign'
     if 'chain3+' in feats:
@@ -795,6 +817,9 @@ WITNESSES = [
     {'id': 'for-nested-for', 'src': 'def f(a: int, b: int) -> int:\n    s = 0\n    for i in range(a):\n'
                                     '        for j in range(b):\n            s = s + i * j\n    return s\n', 'args': [5, 2]},
     {'id': 'for-var-after', 'src': SK_AFTER, 'args': [5, 0]},
+    {'id': 'tuple-assign-fib', 'src': 'def f(a: int, b: int) -> int:\n    x = 0\n    y = 1\n    for i in range(a):\n        x, y = y, x + y\n    return x\n',
+     'args': [7, 0]},
+    {'id': 'tuple-assign-swap', 'src': 'def f(a: int, b: int) -> int:\n    a, b = b, a\n    return a - b\n', 'args': [7, 2]},
     # `/` on ints has no int result: the repaired front-end rejects it (diagnostic = pass), the source as found returns 3
     {'id': 'int-true-division', 'src': 'def f(a: int, b: int) -> int:\n    return a / b\n', 'args': [7, 2], 'diag_ok': True},
     {'id': 'int-true-division-aug', 'src': 'def f(a: int, b: int) -> int:\n    a /= b\n    return a\n', 'args': [7, 2],
@@ -924,7 +949,7 @@ MANIFEST = {
             '(c36_for_range). For the source as found the same statements are refuted with witnesses (-7 // 2 = -3; '
             'continue / nested control flow in a for body leaves the phi without an input; loop variable = n after the '
             'loop) and proved on the complement (c36_expr_exact_outside, c36_for_range_orig_straight). (4) STATEMENTS: for every '
-            'statement tree over assignment, augmented assignment, if/elif/else, while, for-range, break, continue, return, pass and '
+            'statement tree over assignment, tuple assignment, augmented assignment, if/elif/else, while, for-range, break, continue, return, pass and '
             'every environment, if CPython\'s big-step execution (relational spec PyStmtSpec: terminating, exception-free, within '
             '64 bits) ends in return v, the code the gen_statement model emits returns v (c36_stmt_exact, c36_body_exact; rule '
             'induction, continuation-passing simulation, the expression/condition theorems as leaves). LIMIT of (4): the emitted '
